@@ -15,6 +15,9 @@ CONSTANTS N,          \* number of targets
           Provides,   \* enumerate one require/provide entry
           Upper,      \* also enumerate the naming under which top-level names sort BEFORE hidden ones
           EmitMode,   \* "all" | "diff" (only cases with a model/reference disagreement) | "none"
+          Siblings,   \* C25: also enumerate one gc_sibling label
+          MinHidden,  \* at least this many hidden sub-targets
+          Focus,      \* "all" | "rev": only the revdeps queries without --hidden (the wide search for the FIFO flaw)
           SliceK, SliceI \* only the declared graphs whose code is SliceI modulo SliceK (1, 0: all of them)
 
 Nodes == 1..N
@@ -26,15 +29,15 @@ VARIABLES phase, \* 0: only decl chosen; 1: a complete input; 2,3: derived table
           req,   \* req[t]: t requires "l"
           up,    \* naming: FALSE `t1`, `_t1#h2` (hidden sort first); TRUE `T1`, `_T1#h2` (hidden sort last)
           role,  \* C25: "lib" | "bin" | "test" | "tolib" (test_only library) | "keep" (kept label / named / subinclude)
-          uses,  \* (unused, kept {}: shared source files are modelled per pair of targets, see C25 below)
+          sib,   \* C25: sib[t] = u # 0: t carries the label gc_sibling:<u> (0: none)
           \* derived from the input (functions of the variables above, kept as variables so that TLC computes them once)
           res,   \* resolved dependency graph
           aux,   \* reverse / family-joined graphs and cost matrices
           dist,  \* dist[dir][reading][s][t], dir "f"/"b", reading "P"/"A"/"B"
           qs,    \* C23: every deps/revdeps query with its window and the algorithm model's answer
           sps    \* C23: every somepath query
-input == <<par, decl, prov, req, up, role, uses>>
-vars == <<phase, par, decl, prov, req, up, role, uses, res, aux, dist, qs, sps>>
+input == <<par, decl, prov, req, up, role, sib>>
+vars == <<phase, par, decl, prov, req, up, role, sib, res, aux, dist, qs, sps>>
 
 \* ---------------- vocabulary
 Hidden(t) == par[t] # 0
@@ -190,21 +193,23 @@ Levels == [i \in 1..N |-> i - 2]     \* -1 (unlimited), 0 .. N-2 (N-1 is the lon
 Bools == <<FALSE, TRUE>>
 
 ParOK(p) == /\ \A t \in Nodes : p[t] # t /\ (p[t] # 0 => p[p[t]] = 0)
-            /\ Cardinality({t \in Nodes : p[t] # 0}) <= MaxHidden
+            /\ Cardinality({t \in Nodes : p[t] # 0}) \in MinHidden..MaxHidden
 Pars == {p \in [Nodes -> 0..N] : ParOK(p)}
 Pairs == {e \in Nodes \X Nodes : e[1] # e[2]}
 DeclOf(E) == [t \in Nodes |-> {e[2] : e \in {x \in E : x[1] = t}}]
 DagCode(E) == FoldSet(LAMBDA e, acc : acc + (31 * e[1] + 17 * e[2]) * (e[1] + 2 * e[2]), 0, E)
-Dags == {h \in {DeclOf(E) : E \in {F \in SUBSET Pairs : DagCode(F) % SliceK = SliceI}} : Acyclic(h)}
+\* (an operator with parameters, so that TLC does not enumerate it at start-up when a specification does not use it)
+DagsOf(K, I) == {h \in {DeclOf(E) : E \in {F \in SUBSET Pairs : DagCode(F) % K = I}} : Acyclic(h)}
 NoPar == [t \in Nodes |-> 0]
 NoProv == [t \in Nodes |-> 0]
 NoReq == [t \in Nodes |-> FALSE]
 AllLib == [t \in Nodes |-> "lib"]
+NoSib == [t \in Nodes |-> 0]
 \* a canonical require/provide entry: one provider y -> p, required by a non-empty set of y's dependents
 ProvChoices == {<<NoProv, NoReq>>} \cup
   (IF ~Provides THEN {}
-   ELSE {<<[t \in Nodes |-> IF t = y THEN p ELSE 0], [t \in Nodes |-> t \in R]>> :
-           y \in Nodes, p \in Nodes, R \in (SUBSET Nodes) \ {{}}})
+   ELSE UNION {{<<[t \in Nodes |-> IF t = y THEN p ELSE 0], [t \in Nodes |-> t \in R]>> :
+                  p \in Nodes \ {y}, R \in (SUBSET {u \in Nodes : y \in decl[u]}) \ {{}}} : y \in Nodes})
 ProvCanon == \/ (prov = NoProv /\ req = NoReq)
              \/ /\ \E y \in Nodes : prov[y] # 0 /\ prov[y] # y
                 /\ \A u \in Nodes : req[u] => \E d \in decl[u] : prov[d] # 0
@@ -217,16 +222,17 @@ QRec(kind, hid, s, L) ==
   LET d == IF kind = "deps" THEN "f" ELSE "b"
       a == IF kind = "deps" THEN AlgoDeps(s, hid, L) ELSE AlgoRev(s, hid, L)
   IN [kind |-> kind, hid |-> hid, s |-> s, L |-> L, must |-> Must(d, s, hid, L), may |-> May(d, s, hid, L), algo |-> a]
-AllQ == {QRec(k, h, s, L) : k \in {"deps", "rev"}, h \in BOOLEAN, s \in Nodes, L \in ToSet(Levels)}
+AllQ == IF Focus = "rev" THEN {QRec("rev", FALSE, s, L) : s \in Nodes, L \in ToSet(Levels)}
+        ELSE {QRec(k, h, s, L) : k \in {"deps", "rev"}, h \in BOOLEAN, s \in Nodes, L \in ToSet(Levels)}
 SPRec(a, b, sh) ==
   [a |-> a, b |-> b, sh |-> sh, path |-> AlgoSomePath(<<a>>, <<b>>, sh), must |-> MustFind(a, b), may |-> MayFind(a, b)]
 AllSP == {SPRec(e[1], e[2], sh) : e \in Pairs, sh \in BOOLEAN}
 
-InitQ == /\ phase = 0 /\ decl \in Dags
-         /\ par = NoPar /\ up = FALSE /\ prov = NoProv /\ req = NoReq /\ role = AllLib /\ uses = {}
+InitQ == /\ phase = 0 /\ decl \in DagsOf(SliceK, SliceI)
+         /\ par = NoPar /\ up = FALSE /\ prov = NoProv /\ req = NoReq /\ role = AllLib /\ sib = NoSib
          /\ res = decl /\ aux = <<>> /\ dist = <<>> /\ qs = {} /\ sps = {}
 PickQ == /\ phase = 0 /\ phase' = 1
-         /\ UNCHANGED <<decl, role, uses, res, aux, dist, qs, sps>>
+         /\ UNCHANGED <<decl, role, sib, res, aux, dist, qs, sps>>
          /\ par' \in Pars
          /\ up' \in (IF Upper THEN BOOLEAN ELSE {FALSE})
          /\ \E pc \in ProvChoices : prov' = pc[1] /\ req' = pc[2]
@@ -242,25 +248,42 @@ Derive2 == /\ phase = 2 /\ phase' = 3
 EvalQ == /\ phase = 3 /\ phase' = 4
          /\ UNCHANGED <<input, res, aux, dist>>
          /\ qs' = AllQ
-         /\ sps' = AllSP
+         /\ sps' = IF Focus = "rev" THEN {} ELSE AllSP
 SpecQ == InitQ /\ [][PickQ \/ Derive1 \/ Derive2 \/ EvalQ]_vars
+
+\* Hand-picked witnesses (N = 5): graphs outside the quick tier's exhaustive bound that are known to matter.
+\*  1: the FIFO flaw of revdeps. s = `_t2#h5`; t1 (cost 1) is pushed before t2 (cost 0, the own rule); t3 depends
+\*     on both and is first pushed from t1 at depth 2, so at level 2 its dependent t4 (distance 2) is lost.
+\*  2: the first-visit-deeper shape of deps, plus a chain through a foreign hidden sub-target.
+\*  3: the first-visit-deeper flaw of deps in its plainest form: t4 -> t3 -> t2 -> t1 plus t4 -> t2, level 2 loses t1.
+Witnesses == {[decl |-> DeclOf({<<1, 5>>, <<2, 5>>, <<3, 1>>, <<3, 2>>, <<4, 3>>}), par |-> <<0, 0, 0, 0, 2>>],
+              [decl |-> DeclOf({<<4, 3>>, <<3, 2>>, <<2, 1>>, <<4, 2>>, <<1, 5>>}), par |-> <<0, 0, 0, 0, 2>>],
+              [decl |-> DeclOf({<<4, 3>>, <<3, 2>>, <<2, 1>>, <<4, 2>>}), par |-> <<0, 0, 0, 0, 0>>]}
+InitW == /\ phase = 1 /\ N = 5
+         /\ \E w \in Witnesses : decl = w.decl /\ par = w.par
+         /\ up = FALSE /\ prov = NoProv /\ req = NoReq /\ role = AllLib /\ sib = NoSib
+         /\ res = decl /\ aux = <<>> /\ dist = <<>> /\ qs = {} /\ sps = {}
+SpecW == InitW /\ [][Derive1 \/ Derive2 \/ EvalQ]_vars
 
 QDiffs == {q \in qs : ~(q.must \subseteq q.algo /\ q.algo \subseteq q.may)}
 
 \* design-level facts that DO hold of the algorithm models (checked as invariants)
 UpperBound == \A q \in qs : q.algo \subseteq q.may         \* the models never report a target outside the window
 UnlimitedExact == \A q \in qs : q.L = -1 => q.must \subseteq q.algo    \* level -1 misses nothing
+\* NOT true of the models (the recorded flaws): MC_GraphQueries_flaw.cfg expects TLC to refute it
+AllInWindow == \A q \in qs : q.must \subseteq q.algo
 NoHiddenExactWindow ==    \* without hidden targets the three readings coincide: the window is a single set
   (\A t \in Nodes : ~Hidden(t)) => \A q \in qs : q.must = q.may
-Monotone == \A q1, q2 \in qs :      \* the windows grow with the level
-  (q1.kind = q2.kind /\ q1.hid = q2.hid /\ q1.s = q2.s /\ q1.L # -1 /\ (q2.L = -1 \/ q1.L <= q2.L))
-     => q1.must \subseteq q2.must /\ q1.may \subseteq q2.may
+Monotone == phase = 4 =>          \* the windows grow with the level
+  \A d \in {"f", "b"}, s \in Nodes, h \in BOOLEAN, i \in 2..Len(Levels) :
+     LET L == Levels[i] L2 == IF i = Len(Levels) THEN -1 ELSE Levels[i + 1] IN
+     Must(d, s, h, L) \subseteq Must(d, s, h, L2) /\ May(d, s, h, L) \subseteq May(d, s, h, L2)
 SomePathOK == \A r \in sps :
                  /\ (r.must => r.path # <<>>)
                  /\ (r.path # <<>> => r.may /\ Genuine(r.path, r.a, r.b, r.sh))
 \* one call with many sources / many destinations (`:all`): the shared per-destination `seen` must not lose a path
 Others(t) == Sorted(Nodes \ {t})
-SomePathMultiOK == phase = 4 => \A t \in Nodes, sh \in BOOLEAN :
+SomePathMultiOK == (phase = 4 /\ Focus = "all") => \A t \in Nodes, sh \in BOOLEAN :
    LET p1 == AlgoSomePath(Others(t), <<t>>, sh)
        p2 == AlgoSomePath(<<t>>, Others(t), sh)
        must == \E o \in Nodes \ {t} : MustFind(o, t)
@@ -317,7 +340,8 @@ SrcPairs == {U \in SUBSET Nodes : Cardinality(U) = 2}
 SrcProtected == {U \in SrcPairs : U \cap MustKeep # {}}      \* files used by a kept target
 GcSafe(removed, srcsProposed) == removed \cap MustKeep = {} /\ srcsProposed \cap SrcProtected = {}
 
-\* ---------------- algorithm level: src/gc/gc.go targetsToRemove (no filter, no gc_sibling labels)
+\* ---------------- algorithm level: src/gc/gc.go targetsToRemove (no filter)
+GcSibling(t) == IF sib[t] # 0 THEN sib[t] ELSE t      \* the target whose fate t shares
 RECURSIVE AddTarget(_, _), AddTargets(_, _)
 AddTarget(m, t) == IF t \in m THEN m ELSE AddTargets(m \cup {t}, Sorted(decl[t]) \o Sorted(res[t]))
 AddTargets(m, ts) == IF ts = <<>> THEN m ELSE AddTargets(AddTarget(m, Head(ts)), Tail(ts))
@@ -339,32 +363,38 @@ AlgoKeep(conservative) ==
   IN IF conservative THEN k1 ELSE TestPass(all, k1)
 AlgoGc(conservative) ==
   LET k == AlgoKeep(conservative)
-      rm == {t \in Nodes : ~Hidden(t) /\ t \notin k}            \* !sibling.HasParent() && !keepTargets[sibling]
+      rm == {t \in Nodes : ~Hidden(GcSibling(t)) /\ GcSibling(t) \notin k}   \* !sibling.HasParent() && !keepTargets[sibling]
   IN [keep |-> k, removed |-> rm, srcs |-> {U \in SrcPairs : rm \cap U # {} /\ k \cap U = {}}]   \* keepSrcs
 
 \* ---------------- inputs, invariants, emission
-InitGc == /\ phase = 0 /\ decl \in Dags
-          /\ par = NoPar /\ up = FALSE /\ prov = NoProv /\ req = NoReq /\ role = AllLib /\ uses = {}
+SibChoices == {NoSib} \cup (IF ~Siblings THEN {}
+                            ELSE {[t \in Nodes |-> IF t = e[1] THEN e[2] ELSE 0] : e \in Pairs})
+InitGc == /\ phase = 0 /\ decl \in DagsOf(SliceK, SliceI)
+          /\ par = NoPar /\ up = FALSE /\ prov = NoProv /\ req = NoReq /\ role = AllLib /\ sib = NoSib
           /\ res = decl /\ aux = <<>> /\ dist = <<>> /\ qs = {} /\ sps = {}
 PickGc == /\ phase = 0 /\ phase' = 1
           /\ UNCHANGED <<decl, prov, req, res, aux, dist, qs, sps>>
           /\ par' \in Pars
           /\ up' \in (IF Upper THEN BOOLEAN ELSE {FALSE})
-          /\ role' \in [Nodes -> Roles] /\ uses' = {}
+          /\ role' \in [Nodes -> Roles]
+          /\ sib' \in SibChoices
 EvalGc == /\ phase = 1 /\ WellFormed /\ phase' = 4
           /\ UNCHANGED <<input, res, aux, dist, sps>>
           /\ qs' = {[cons |-> c, r |-> AlgoGc(c)] : c \in BOOLEAN}
 SpecGc == InitGc /\ [][PickGc \/ EvalGc]_vars
 
 \* design-level: the algorithm never proposes what the property protects, in either mode
-GcModelSafe == phase = 4 => \A q \in qs : GcSafe(q.r.removed, q.r.srcs)
+GcModelSafe == (phase = 4 /\ sib = NoSib) => \A q \in qs : GcSafe(q.r.removed, q.r.srcs)
+\* with a gc_sibling label the design is NOT safe (a needed target shares the fate of an unneeded sibling); the
+\* cases are emitted with the model's answer and replayed. What does hold: only labelled targets are affected.
+GcSiblingOnly == phase = 4 => \A q \in qs : (\A t \in q.r.removed \cap MustKeep : sib[t] # 0) /\ q.r.srcs \cap SrcProtected = {}
 \* ... and its keep set is closed under dependencies and contains the property's
 GcModelClosed == phase = 4 => \A q \in qs : MustKeep \subseteq q.r.keep /\ Closure(DepsOf, q.r.keep) = q.r.keep
 GcClass == IF MustKeep = {} THEN "no-roots"
            ELSE IF TestRoots # {} THEN "test-roots"
            ELSE IF \E t \in MustKeep : Hidden(t) THEN "hidden-kept" ELSE "plain"
 PairSeq(S) == SetToSortSeq({SetToSortSeq(U, <) : U \in S}, PairLess)
-CaseGc == [n |-> N, par |-> par, decl |-> EdgeSeq(decl), up |-> up, role |-> role,
+CaseGc == [n |-> N, par |-> par, decl |-> EdgeSeq(decl), up |-> up, role |-> role, sib |-> sib,
            expect |-> [mustkeep |-> Mask(MustKeep), roots |-> Mask(BaseRoots \cup TestRoots), srcprotected |-> PairSeq(SrcProtected)],
            algo |-> [c \in 1..2 |-> LET r == (CHOOSE q \in qs : q.cons = Bools[c]).r IN
                                       [removed |-> Mask(r.removed), srcs |-> PairSeq(r.srcs)]],
